@@ -23,6 +23,10 @@ var props = map[string]*prop{}
 var execs = map[string]func(input string) string{}
 
 func main() {
+	if len(os.Args) == 3 && os.Args[1] == "regchild" {
+		fmt.Println(runRegChild(fields(os.Args[2])[1:]))
+		return
+	}
 	if len(os.Args) < 3 {
 		fmt.Fprintln(os.Stderr, "usage: harness gen|exec <prop> [tier seed]")
 		os.Exit(2)
